@@ -1,6 +1,6 @@
 (* Property C19 -- newer-strategy databases accept every write (sequential part) *)
 (* Statements only: each theorem restates the proved lemma's statement and is closed by [exact]. *)
-From NunDB Require Import Model.Base Model.Pending Model.Parse Model.Node Proofs.DbProofs.
+From NunDB Require Import Model.Base Model.Pending Model.Parse Model.Node Proofs.DbProofs Model.Sched Proofs.SchedProofs.
 Local Open Scope Z_scope.
 
 (* no versioned write is refused; the reply names the value now stored; the version never decreases; other keys untouched *)
@@ -68,3 +68,98 @@ Theorem C19_tombstone_reply_refuted :
          apply_change cx_node "d" cx_ch = (cx_node, RSet "k" "<Empty>") /\ live cx_db "k" = None.
 Proof. exact newer_tombstone_cx. Qed.
 Print Assumptions C19_tombstone_reply_refuted.
+
+Theorem C19_sched_resolving_set_succeeds :
+  forall (d : db) (k v : str) (ver : Z) (id : N),
+         (forall old : value, get_value d k = Some old -> v_ver old <> -2 /\ v_ver old < i32_max) ->
+         exists (d1 : db) (msgs : list (nat * str)) (nw : value),
+           set_value d {| c_key := k; c_val := v; c_ver := ver; c_opp := id; c_resolve := true |} =
+           (d1, RSet k v, msgs) /\
+           get_value d1 k = Some nw /\
+           v_val nw = v /\
+           v_opp nw = id /\
+           (forall old : value, get_value d k = Some old -> ver <> -2 -> v_ver nw = v_ver old + 1).
+Proof. exact resolving_set_succeeds. Qed.
+Print Assumptions C19_sched_resolving_set_succeeds.
+
+(* a write release on a newer database ends applied, parked for re-application, or answered Ok -- never refused *)
+Theorem C19_sched_newer_set_release :
+  forall (n : node) (t : thr) (dbn key value0 : str) (ver : Z) (opp : N) (rs : bool) (orig : Z) (d : db),
+         t_pc t = PcSetWrite dbn key value0 ver opp rs orig ->
+         get_db n dbn = Some d ->
+         d_strat d = SNewer ->
+         sel_ok n (t_sid t) = true ->
+         let ch := {| c_key := key; c_val := value0; c_ver := ver; c_opp := opp; c_resolve := rs |} in
+         let n' := fst (release n t) in
+         let t' := snd (release n t) in
+         snd (fst (set_value d ch)) = RSet key value0 /\
+         n' = put_db n dbn (fst (fst (set_value d ch))) /\
+         t_pc t' = PcNotify dbn key value0 (cur_ver (fst (fst (set_value d ch))) key) (RqSet key value0 orig) /\
+         t_replies t' = t_replies t \/
+         (exists old : value,
+            get_value d key = Some old /\
+            (v_opp old < opp)%N /\
+            n_dbs n' = n_dbs n /\
+            t_pc t' = PcSetWrite dbn key value0 (v_ver old) (n_clock n) true orig /\ t_replies t' = t_replies t) \/
+         (exists old : value,
+            get_value d key = Some old /\
+            (opp <= v_opp old)%N /\ n_dbs n' = n_dbs n /\ t_replies t' = t_replies t ++ [ROk] /\ at_boundary t').
+Proof. exact newer_set_release. Qed.
+Print Assumptions C19_sched_newer_set_release.
+
+Theorem C19_sched_newer_resolving_release :
+  forall (n : node) (t : thr) (dbn key value0 : str) (ver : Z) (opp : N) (orig : Z) (d : db),
+         t_pc t = PcSetWrite dbn key value0 ver opp true orig ->
+         get_db n dbn = Some d ->
+         (forall old : value, get_value d key = Some old -> v_ver old <> -2 /\ v_ver old < i32_max) ->
+         exists (d1 : db) (nw : value) (nv : Z),
+           release n t =
+           (put_db n dbn d1, park t (PcNotify dbn key value0 nv (RqSet key value0 orig)) "watchers.read") /\
+           d1 = db_apply' d (DSet' key value0 ver opp true) /\
+           get_value d1 key = Some nw /\ v_val nw = value0 /\ v_opp nw = opp /\ nv = v_ver nw.
+Proof. exact newer_resolving_release. Qed.
+Print Assumptions C19_sched_newer_resolving_release.
+
+(* UNBOUNDED INTERLEAVINGS: no release of a set on a newer database records anything but Ok *)
+Theorem C19_sched_newer_set_answered :
+  forall (n : node) (t : thr) (dbn key value : str) (ver : Z) (opp : N) (rs : bool) (orig : Z) (d : db),
+         t_pc t = PcSetWrite dbn key value ver opp rs orig ->
+         get_db n dbn = Some d ->
+         d_strat d = SNewer ->
+         sel_ok n (t_sid t) = true ->
+         let t' := snd (release n t) in
+         t_replies t' = t_replies t /\
+         ((exists nv : Z, t_pc t' = PcNotify dbn key value nv (RqSet key value orig)) \/
+          (exists (v : Z) (i : N), t_pc t' = PcSetWrite dbn key value v i true orig)) \/
+         t_replies t' = t_replies t ++ [ROk] /\ at_boundary t'.
+Proof. exact newer_set_answered. Qed.
+Print Assumptions C19_sched_newer_set_answered.
+
+(* versions never go down along any schedule *)
+Theorem C19_sched_newer_version_grows :
+  forall (n : node) (ts : list thr) (sched : list nat) (dbn : str) (d : db) (k : str) (old : value),
+         Forall sched_thr ts ->
+         get_db n dbn = Some d ->
+         get_value d k = Some old ->
+         v_ver old <= i32_max ->
+         run_ok' k d (ops_on dbn (data_log n ts sched)) ->
+         exists (d' : db) (nw : value),
+           get_db (fst (run_schedule n ts sched)) dbn = Some d' /\
+           get_value d' k = Some nw /\ v_ver old <= v_ver nw.
+Proof. exact newer_version_grows. Qed.
+Print Assumptions C19_sched_newer_version_grows.
+
+Theorem C19_sched_newer_version_grows_inv :
+  forall (n : node) (ts : list thr) (sched : list nat) (dbn : str) (d : db) (k : str) (old : value),
+         Forall sched_thr ts ->
+         Forall vers_thr ts ->
+         node_vok n ->
+         get_db n dbn = Some d ->
+         get_value d k = Some old ->
+         v_ver old <= i32_max ->
+         stays k d (ops_on dbn (data_log n ts sched)) ->
+         exists (d' : db) (nw : value),
+           get_db (fst (run_schedule n ts sched)) dbn = Some d' /\
+           get_value d' k = Some nw /\ v_ver old <= v_ver nw.
+Proof. exact newer_version_grows_inv. Qed.
+Print Assumptions C19_sched_newer_version_grows_inv.
